@@ -15,6 +15,7 @@ from __future__ import annotations
 import ast
 import hashlib
 import itertools
+import re
 import signal
 from fractions import Fraction
 from typing import Any
@@ -214,6 +215,54 @@ _EXP_KEYS_ONLY = (
 )
 _EXP_CONTEXT_BEFORE = "    subs, prods = _unpack_stoichiometries(rxn.stoichiometry)\n"
 _EXP_CONTEXT_AFTER = "    subs, prods = _add_label_influx_or_efflux(subs, prods, label_map)\n"
+# the LinearLabelMapper CLASS: what it keeps between build_model calls (fact `gen_lin_cache`, model coq/label/LinSession.v).
+# CacheNone = the tree: exactly the three public dataclass fields, the two methods, build_model touches `self` only to READ the three
+# fields.  CacheAliased = the recognised regression shape seeded as C16-9: the per-position transfers are computed by
+# `_get_label_transfers` and cached on the mapper, validated against a snapshot that holds the very dict objects it is compared with.
+_LIN_FIELDS_TREE = ["model", "label_variables", "label_maps"]
+_LIN_METHODS_TREE = ["get_isotopomers", "build_model"]
+_LIN_SELF_READS_TREE = ["self.label_variables.items()", "self.model.get_raw_reactions()", "self.label_maps.items()"]
+_LIN_FIELDS_ALIASED = ["model", "label_variables", "label_maps", "_transfers", "_transfers_source"]
+_LIN_METHODS_ALIASED = ["_get_label_transfers", "get_isotopomers", "build_model"]
+_LIN_ALIASED_HASHES = {"_get_label_transfers<EXP><DIR>": "95b86591cefb9adb", "build_model": "f980b82aab1e84df"}
+
+
+def lin_class_shape(lin: ast.AST) -> dict[str, Any]:
+    cls = next((n for n in ast.walk(lin) if isinstance(n, ast.ClassDef) and n.name == "LinearLabelMapper"), None)
+    if cls is None:
+        return {"fields": None, "methods": None}
+    fields, methods, other = [], [], 0
+    for st in cls.body:
+        if isinstance(st, ast.AnnAssign) and isinstance(st.target, ast.Name):
+            fields.append(st.target.id)
+        elif isinstance(st, ast.FunctionDef):
+            methods.append(st.name)
+        elif not (isinstance(st, ast.Expr) and isinstance(st.value, ast.Constant)):
+            other += 1
+    return {"fields": fields, "methods": methods, "other": other, "bases": len(cls.bases) + len(cls.keywords)}
+
+
+def _exp_dir_normalised(src: str) -> str:
+    return src.replace(_DIR_INVERSE, "<DIR>").replace(_DIR_DOCUMENTED, "<DIR>").replace(_EXP_DUPLICATED, "<EXP>\n").replace(_EXP_KEYS_ONLY, "<EXP>\n")
+
+
+def lin_cache_fact(lin: ast.AST) -> str:
+    shape = lin_class_shape(lin)
+    if shape.get("other") or shape.get("bases"):
+        return "CacheUnknown"
+    bm = _body_src(_fn(lin, "build_model"))
+    if shape["fields"] == _LIN_FIELDS_TREE and shape["methods"] == _LIN_METHODS_TREE:
+        reads = re.findall(r"self\.[A-Za-z_][A-Za-z_0-9.]*(?:\(\))?", bm)
+        if reads == _LIN_SELF_READS_TREE and bm.count("self") == 3:
+            return "CacheNone"
+        return "CacheUnknown"
+    if shape["fields"] == _LIN_FIELDS_ALIASED and shape["methods"] == _LIN_METHODS_ALIASED:
+        hs = {"_get_label_transfers<EXP><DIR>": _h(_exp_dir_normalised(_body_src(_fn(lin, "_get_label_transfers")))), "build_model": _h(bm)}
+        if hs == _LIN_ALIASED_HASHES:
+            return "CacheAliased"
+    return "CacheUnknown"
+
+
 _HELPER_INVERSE = (
     "res = ['EXT'] * len(substrates)\n"
     "for substrate, pos in zip(substrates, labelmap, strict=True):\n"
@@ -279,6 +328,7 @@ def extract_facts() -> dict[str, str]:
         "init_name": "InitUnknown",
         "lin_expand": "ExpUnknown",
         "build_maps": "MapsUnknown",
+        "lin_cache": "CacheUnknown",
     }
     try:
         iso = ast.parse((common.REPO / "src/mxlpy/label_map.py").read_text())
@@ -329,6 +379,10 @@ def extract_facts() -> dict[str, str]:
         facts["build_maps"] = "MapsPopped"
     # reading direction of the linear mapper: the statement in build_model AND (if used) the helper
     bm = _body_src(_fn(lin, "build_model"))
+    facts["lin_cache"] = lin_cache_fact(lin)
+    if facts["lin_cache"] == "CacheAliased":
+        # recognised regression shape: the per-reaction statements (expansion, reading direction) live in the caching helper
+        bm = _body_src(_fn(lin, "_get_label_transfers"))
     helper = _body_src(_fn(lin, "_map_substrates_to_labelmap"))
     if bm.count(_DIR_INVERSE) == 1 and _DIR_DOCUMENTED not in bm and helper == _HELPER_INVERSE:
         facts["lin_dir"] = "DirInverse"
@@ -349,10 +403,12 @@ def gen() -> dict[str, str]:
         "(* REGENERATED from src/mxlpy/label_map.py and src/mxlpy/linear_label_map.py by harness/c05_label.py;\n"
         "   do not edit.  An unrecognised shape yields an *Unknown constructor / None / false, which breaks\n"
         "   C05_facts_pinned or C16_facts_pinned. *)\n"
-        "From Label Require Import LModel Iso IsoSession Linear.\n"
+        "From Label Require Import LModel Iso IsoSession Linear LinSession.\n"
         f"Definition gen_label_facts : label_facts :=\n  mkLabelFacts {f['iso_dir']} {f['ext_bit']} {f['short']} {f['repl']} {f['iso_helpers']} {f['lin_dir']} {f['lin_helpers']} {f['init_name']} {f['lin_expand']}.\n"
         "(* how LabelMapper.build_model's reaction loop consults the mapper's own label_maps dict (IsoSession.v); pinned by C05_build_maps_pinned *)\n"
         f"Definition gen_build_maps : maps_mode := {f['build_maps']}.\n"
+        "(* what LinearLabelMapper keeps between build_model calls (LinSession.v); pinned by C16_lin_cache_pinned *)\n"
+        f"Definition gen_lin_cache : cache_mode := {f['lin_cache']}.\n"
     )
     common.write_if_changed(common.area_dir(AREA) / "GenLabelFacts.v", text)
     return f
